@@ -55,8 +55,11 @@ def canon(obj, ordered=True, labels=True):
 
 
 def exec_expr(e):
-    """Partitions of a (lowered) expression, by executing its graph synchronously."""
+    """Partitions of a (lowered) expression, by executing its graph synchronously.  Like FrameBase.__dask_graph__ the plan is
+    lowered completely first (a no-op on a physical plan, except where the last simplify pass of the optimizer left a logical
+    node such as an alignment behind: such a plan is valid, the public materialization path lowers it)."""
     import dask
+    e = e.lower_completely()
     return list(dask.get(e.__dask_graph__(), e.__dask_keys__()))
 
 
